@@ -8,14 +8,20 @@ CONSTANTS Chunk, Depth3         \* ASTs per behaviour; include the depth-3 famil
 All == Leaves \o Depth2 \o (IF Depth3 THEN Depth3Seq ELSE <<>>)
 \* NB: the sequence is bound once by a LET (TLC memoises LET-bound values); referring to `All` inside
 \* the loops would rebuild the whole sequence at every use.
-ChunkOf(A, c) == LET lo == (c - 1) * Chunk + 1
-                     hi == IF c * Chunk < Len(A) THEN c * Chunk ELSE Len(A)
-                 IN [j \in 1..(hi - lo + 1) |-> [op |-> "ast", ast |-> A[lo + j - 1]]]
+\* every chunk also carries Extra trees of the same-label AND/OR family (round robin), so that whatever
+\* chunks the quick tier samples, that family is represented
+Extra == 4
+ChunkOf(A, S, c) ==
+    LET lo == (c - 1) * Chunk + 1
+        hi == IF c * Chunk < Len(A) THEN c * Chunk ELSE Len(A)
+    IN [j \in 1..(hi - lo + 1) |-> [op |-> "ast", ast |-> A[lo + j - 1]]]
+       \o [j \in 1..Extra |-> [op |-> "ast", ast |-> S[(((c - 1) * Extra + j - 1) % Len(S)) + 1]]]
 
 ASSUME PrintT(<<"GEN_ASTS", Len(Leaves), Len(Depth2), IF Depth3 THEN Len(Depth3Seq) ELSE 0>>)
 ASSUME LET A == All
+           S == SameLabelSeq
            nch == (Len(A) + Chunk - 1) \div Chunk
-       IN \A c \in 1..nch : PrintT("BEH " \o ToJson(ChunkOf(A, c)))
+       IN \A c \in 1..nch : PrintT("BEH " \o ToJson(ChunkOf(A, S, c)))
 
 VARIABLE done
 GInit == done = FALSE
